@@ -218,6 +218,19 @@ Theorem C04_many_secrets_size : N.of_nat (length family_multi) = 48 /\
 Proof. exact family_multi_nonvacuous. Qed.
 Print Assumptions C04_many_secrets_size.
 
+(* 5c. BOUNDED: the EMPTY mask (an explicit secret='' must be honoured): 48 messages over the quoted, XML, dict and command-list
+       renderings — the value is replaced by nothing and a second application changes nothing; 3 messages of the --k form — the
+       value is replaced by nothing (idempotence is not claimed there: `--k  next` reads the next word as a new value) *)
+Theorem C04_empty_mask_bounded :
+  (forall c, In c family_empty -> in_zone (case_msg c) = false ->
+     case_mask c = [] /\ mask_password (case_msg c) (case_mask c) = case_want c /\ mask_password (case_want c) (case_mask c) = case_want c) /\
+  (forall c, In c family_empty_dd -> in_zone (case_msg c) = false ->
+     case_mask c = [] /\ mask_password (case_msg c) (case_mask c) = case_want c) /\
+  N.of_nat (length family_empty) = 48 /\ N.of_nat (length family_empty_dd) = 3 /\
+  forallb (fun c => negb (in_zone (case_msg c))) (family_empty ++ family_empty_dd) = true.
+Proof. exact empty_mask_bounded. Qed.
+Print Assumptions C04_empty_mask_bounded.
+
 (* 6. the full statement (two secrets in neutral text) and its refutation by the wildcard pattern (K12) *)
 Definition C04_full_statement : Prop := full_statement.   (* Proofs/C04_Refute.v: two supported renderings in neutral text *)
 
